@@ -1,5 +1,6 @@
 import MaestroVerif.Lemmas.ExecDemo
 import MaestroVerif.Lemmas.ExecLive
+import MaestroVerif.Gen.ExecTables
 
 /-!
 # C05 — The study terminates and its final verdict and exit code are truthful
@@ -185,5 +186,27 @@ example : Dag.Acyclic demoCfg.dag :=
 example : verdict demoCfg (runPolls demoCfg (run demoCfg [.poll ⟨.OK, []⟩])
     [⟨.OK, [(1, some .FINISHED)]⟩, ⟨.OK, [(2, some .FINISHED), (3, some .FAILED)]⟩]) = .FAILURE := by
   decide +kernel
+
+
+/-! ## tie to the source: the order of the verdicts in `_check_study_completion` -/
+
+/-- the verdicts of the model's decision, in the order its branches are tried -/
+def verdictReturns : List StudyStatus := [.CANCELLED, .CANCELLED, .FAILURE, .FINISHED, .RUNNING]
+
+/-- **The `return StudyStatus.X` statements of `_check_study_completion`, re-read
+from the source on every run, come in the order of the model's branches**
+(cancel-and-drained, then all resolved: cancelled before failed before finished,
+else running). -/
+theorem C05_completion_returns : completionReturns = verdictReturns := by decide
+
+/-- and the model's `verdict` realises exactly that order -/
+theorem C05_verdict_order (cfg : Cfg) (g : G) :
+    (g.isCanceled = true ∧ g.inProgress = [] → verdict cfg g = .CANCELLED) ∧
+    (allResolved cfg g → g.cancelled ≠ [] → verdict cfg g = .CANCELLED) ∧
+    (¬ (g.isCanceled = true ∧ g.inProgress = []) → allResolved cfg g → g.cancelled = [] → g.failed ≠ [] →
+      verdict cfg g = .FAILURE) := by
+  refine ⟨fun h => (C05_verdict_cancelled cfg g).mpr (Or.inl h),
+    fun h1 h2 => (C05_verdict_cancelled cfg g).mpr (Or.inr ⟨h1, h2⟩),
+    fun h0 h1 h2 h3 => (C05_verdict_failure cfg g).mpr ⟨h0, h1, h2, h3⟩⟩
 
 end MaestroVerif.C05
